@@ -377,6 +377,12 @@ pub fn run(seed: u64, tier: &str, w: &mut dyn Write) -> usize {
     let outer_cfgs: Vec<(&str, CircuitConfig)> = if thorough {
         vec![("", CircuitConfig::standard_recursion_config()), ("@zkouter", CircuitConfig::standard_recursion_zk_config())]
     } else { vec![("", CircuitConfig::standard_recursion_config())] };
+    // an outer circuit whose OWN parameters differ from the inner ones in everything the in-circuit verifier must
+    // take from the inner circuit (number of challenges, grinding bits, cap height, arity): run for the first inner
+    let mut outer_cfgs = outer_cfgs;
+    outer_cfgs.push(("@otherouter", CircuitConfig { num_challenges: 3, security_bits: 96,
+        fri_config: fri_config(3, 3, 12, plonky2::fri::reduction_strategies::FriReductionStrategy::ConstantArityBits(3, 4), 28),
+        ..CircuitConfig::standard_recursion_config() }));
     for (ii, (iname, icfg, kinds, size)) in inner_corpus(tier).into_iter().enumerate() {
         let prog = gen_program(&mut r, size, kinds);
         let b = match build_and_prove(&prog, &icfg) {
@@ -384,7 +390,8 @@ pub fn run(seed: u64, tier: &str, w: &mut dyn Write) -> usize {
             Err(e) => { writeln!(w, "c06 {iname} inner-build = 0 # {e}").unwrap(); n += 1; continue; }
         };
         for (oi, (otag, ocfg)) in outer_cfgs.iter().enumerate() {
-            if oi > 0 && ii != 1 { continue; } // second outer configuration: one inner circuit
+            if *otag == "@otherouter" { if ii != 0 { continue; } }
+            else if oi > 0 && ii != 1 { continue; } // second outer configuration: one inner circuit
             let name = format!("{iname}{otag}");
             let outer = match build_outer(&b.data.common, ocfg) {
                 Ok(o) => o,
